@@ -68,10 +68,11 @@ func init() {
 			Note:      "Small alphabets (2-3 keys), tiny table/level sizes so that multi-level shapes are reached in a few steps; states deduplicated by canonical LSM shape.",
 			Technique: "explicit-state BFS over operation sequences executed on the implementation, reference-model oracle",
 			Rule:      "BFS states = canonical LSM shapes (per level: tables with their (key, version-rank, meta) lists and age class; memtable; watermark position); transitions = operations applied to the real DB"}
+		seeds := [][]string{seq("Sa F Sb F"), seq("Sa F Sa F"), seq("Sa F Sa F C0 Sb F Da F"), seq("Sa F Sb F Sa F Sb F A"), seq("Sa Sb F Sa Sb F C0 C0 Sa F Sb F C0")}
 		if q {
-			p.Stages = []Stage{bfs("lsm", 4, 60, prm("oracle", "c12"))}
+			p.Stages = []Stage{bfs("lsm", 4, 40, prm("oracle", "c12")), bfs("lsm", 5, 75, prm("oracle", "c12", "ops", "Sa Sb Da Db F C0 C1 T"), seeds[:3]...), bfs("lsm", 3, 30, prm("oracle", "c12"), seeds[3:]...)}
 		} else {
-			p.Stages = []Stage{bfs("lsm", 6, 600, prm("oracle", "c12"))}
+			p.Stages = []Stage{bfs("lsm", 6, 600, prm("oracle", "c12")), bfs("lsm", 7, 900, prm("oracle", "c12"), seeds...), bfs("lsm", 5, 600, prm("oracle", "c12", "keys", 3, "nvk", 2), seeds...)}
 		}
 		return p
 	}
@@ -171,8 +172,8 @@ func init() {
 	}
 	planTable["C08"] = crashPlan("Every persistence step of every history is a crash point with the page cache surviving: the image must Open, show a commit-order prefix containing every acknowledged operation, no partial transaction, and be stable under a second close/re-open.",
 		"Histories are sequential (one client thread plus badger's own writer/flusher goroutines).",
-		[]Stage{en("crash08", 16, 80, prm("oracle", "c08", "len", 4, "alphabet", "T2 TV TD WB F C R"))},
-		[]Stage{en("crash08", 16, 900, prm("oracle", "c08", "len", 5, "alphabet", "T2 TV TD WB F C R GC"))})
+		[]Stage{en("crash08", 16, 70, prm("oracle", "c08", "len", 4, "alphabet", "T2 TV TD WB F C R")), sched("crash08c", 2, 16, 30, prm("threads", 2))},
+		[]Stage{en("crash08", 16, 900, prm("oracle", "c08", "len", 5, "alphabet", "T2 TV TD WB F C R GC")), sched("crash08c", 2, 16, 300, prm("threads", 2)), sched("crash08c", 2, 16, 600, prm("threads", 3))})
 	planTable["C09"] = crashPlan("For every write step (WAL and value-log mmap writes, MANIFEST appends) of every history, the written file is torn at EVERY byte offset of the bytes that step changed (remainder as before the step: zeros in the pre-allocated mmap logs; for the MANIFEST both cut short and zero-filled to the new length), all other files as before the step; plain and encrypted. Each image must Open and show a commit-order prefix containing every acknowledged operation, the in-flight transaction present as a whole or not at all.",
 		"Torn states are derived from consecutive quiescent snapshots around each write step, so every other file is consistent with the moment of the tear.",
 		[]Stage{en("crash09", 16, 40, prm("oracle", "c08", "len", 2, "alphabet", "T2 TV WB F C")), en("crash09", 16, 60, prm("oracle", "c08", "len", 3, "alphabet", "T2 TV WB F C", "max_per_step", 24)), en("crash09", 16, 40, prm("oracle", "c08", "len", 2, "alphabet", "TV WB F", "encrypt", true, "max_per_step", 64))},
